@@ -148,6 +148,34 @@ def modelProgram (externErr : Bool) : List Block → Sexp × Bool
         | .ok es => go rest (encGraph b es :: acc)
     go bs []
 
+/-- Generic program-stream handler shared by the C22–C24 drivers: decode the projected program, run the model,
+compare with the implementation's answer, evaluate `spec` on every (block, implementation graph) pair.
+`spec b nodes es` gets the implementation's node codes and edges. -/
+def handleProgramWith (stream : String) (p out : Sexp)
+    (spec : Block → List Nat → List Edge → Bool) (nontriv : Block → Bool)
+    (tagsOf : Block → List Edge → List String) : CaseResult :=
+  match decProg p with
+  | none => .bad s!"undecodable program {p}"
+  | some (externErr, blocks) =>
+    let (mOut, mOk) := modelProgram externErr blocks
+    let agree := mOut == out
+    let (specOk, tags) : Bool × List String := match out with
+      | .list (.atom "ok" :: gs) =>
+        if gs.length != blocks.length then (false, []) else
+        (blocks.zip gs).foldl (fun acc bg =>
+          match decGraph bg.1.instrs.length bg.2 with
+          | some (ns, es) => (acc.1 && spec bg.1 ns es, acc.2 ++ tagsOf bg.1 es)
+          | none => (false, acc.2)) (true, [])
+      | .list (.atom "err" :: _) => (true, [])
+      | _ => (false, [])
+    let maxLen := blocks.foldl (fun m b => max m b.instrs.length) 0
+    let errTag := match out with
+      | .list (.atom "err" :: .atom v :: _) => [s!"err-{v}"]
+      | _ => ["ok"]
+    { agree, specOk, nontrivial := mOk && blocks.any nontriv,
+      tags := [stream, s!"blocks{min blocks.length 4}", s!"len{min maxLen 8}"] ++ errTag ++ tags.eraseDups,
+      detail := s!"model={mOut} impl={out}" }
+
 def roleTag : Role → String
   | .classical => "classical" | .rf => "rf" | .controlFlow => "controlFlow" | .composition => "composition"
 
